@@ -41,7 +41,6 @@ from jax2onnx.plugins.plugin_system import (
 )
 from jax2onnx.plugins._post_check_onnx_graph import expect_graph
 
-
 HeadsTuple = tuple[jax.Array, jax.Array, jax.Array]
 ProcessHeadsFn = Callable[[jax.Array, jax.Array, jax.Array], HeadsTuple]
 ShapeDims = tuple[object, ...]
@@ -1368,8 +1367,16 @@ class MultiheadAttentionPlugin(PrimitiveLeafPlugin):
             _stamp_type_and_shape(scores, scores_meta)
             _ensure_value_metadata(ctx, scores)
 
+            # bind_const_for_var widens float32 payloads under enable_double_precision,
+            # so the scale has to be created in double there to be exact.
+            scale_np_dtype = (
+                np.float64
+                if getattr(ctx.builder, "enable_double_precision", False)
+                else np.float32
+            )
             scale_value = ctx.bind_const_for_var(
-                object(), np.asarray(1.0 / math.sqrt(float(qk_size)), dtype=np.float32)
+                object(),
+                np.asarray(1.0 / math.sqrt(float(qk_size)), dtype=scale_np_dtype),
             )
             scale_cast = cast_param_like(
                 ctx, scale_value, scores, name_hint="mha_scale_cast"
